@@ -192,7 +192,7 @@ def build(cfg, ctx):
     b.x0 = np.array(cfg["x0"], dtype=float)
     kw = {}
     a = cfg.get("args", {})
-    for k in ("npt", "rhobeg", "rhoend", "maxfun", "scaling_within_bounds", "objfun_has_noise"):
+    for k in ("npt", "rhobeg", "rhoend", "maxfun", "scaling_within_bounds", "objfun_has_noise", "do_logging", "print_progress"):
         if k in a and a[k] is not None:
             kw[k] = a[k]
     if cfg.get("lower") is not None or cfg.get("upper") is not None:
@@ -359,8 +359,10 @@ def gen_options(rng, n, npt=None, allow=("restarts", "regression", "growing", "r
             up["restarts.max_unsuccessful_restarts"] = int(pick(rng, [1, 2, 3]))
         if r() < 0.25:
             base = npt if npt is not None else n + 1
-            cap = (n + 1) * (n + 2) // 2   # beyond this a hard restart needs random initial directions (finding, owned by C07)
-            mx = int(min(base + rng.integers(1, n + 2), cap))
+            cap = (n + 1) * (n + 2) // 2   # beyond this a hard restart needs random initial directions (was a C07 finding; fixed by 0f4f0c6)
+            mx = int(base + rng.integers(1, n + 2))
+            if mx > cap and np.random.default_rng([mx, n, base, int(rng.integers(0, 2 ** 31))]).random() < 0.6:
+                mx = cap
             if mx > base:
                 up["restarts.increase_npt"] = True
                 up["restarts.max_npt"] = mx
